@@ -337,6 +337,17 @@ for _i, (_fs, _loc, _blk) in enumerate((('int %s;', 'int %s = 0;', 'extern char 
     add('block-extern-behind-local/%d' % _i, 'decl', '%s void hbf%d(int n) { %s { %s } }' % (_fs % _n, _i, _loc % _n, _blk % _n), blockok=False)
     add('block-extern-behind-parameter/%d' % _i, 'decl', '%s void hbg%d(int %s) { { %s } }' % (_fs % _n, _i, _n, _blk % _n), blockok=False)
     add('block-extern-behind-two-locals/%d' % _i, 'decl', '%s void hbh%d(int n) { %s { int %s = 1; { %s } } }' % (_fs % _n, _i, _loc % _n, _n, _blk % _n), blockok=False)
+# jumps into the scope of an identifier with variably modified type (6.8.6.1p1, 6.8.4.2p2): forward and backward goto, case and default
+# labels, for arrays, pointers to arrays and typedefs
+for _i, _vm in enumerate(('int jv[cobj];', 'int (*jv)[cobj] = 0;', 'typedef int jv[cobj];', 'int jv[2][cobj];')):
+    _use = '(void)sizeof(jv);'
+    add('goto-into-vm-scope/forward/%d' % _i, 'stmt', 'goto jl%d; { %s jl%d: %s }' % (_i, _vm, _i, _use))
+    add('goto-into-vm-scope/forward-same-block/%d' % _i, 'decl', 'void jf%d(void) { goto jm%d; %s jm%d: %s }' % (_i, _i, _vm, _i, _use), blockok=False)
+    add('goto-into-vm-scope/backward/%d' % _i, 'stmt', '{ %s jb%d: %s } goto jb%d;' % (_vm, _i, _use, _i))
+    add('goto-into-vm-scope/nested/%d' % _i, 'stmt', 'goto jn%d; { int q = 1; { %s { jn%d: %s } } (void)q; }' % (_i, _vm, _i, _use))
+    add('switch-into-vm-scope/case/%d' % _i, 'stmt', 'switch (cobj) { case 1: { %s %s case 2: %s } }' % (_vm, _use, _use))
+    add('switch-into-vm-scope/default/%d' % _i, 'stmt', 'switch (cobj) { %s default: %s }' % (_vm, _use))
+    add('switch-into-vm-scope/first-case/%d' % _i, 'stmt', 'switch (cobj) { %s case 0: %s }' % (_vm, _use))
 add('init-negative-designator', 'decl', 'int in9[2] = { [-1] = 1 };')
 # boundary versions of the range checks (index == length, width == type width + 1, value == max + 1)
 add('init-designator-equal-to-length', 'decl', 'int in8b[3] = { 1, [3] = 7 };')
